@@ -15,7 +15,12 @@ Fixpoint rtrim (s : str) : str :=
               end
   end.
 Definition ends_clean (s : str) : bool := negb (is_hspace (last s 0)).
-Definition trim_file (ls : list str) : list str := map rtrim ls.
+(* /repo a0c5e27: `if hasSuffix(text[:trimmedLen], "\\") { return }` -- the blanks after a
+   backslash stay (in a makefile their removal would join the line with the next one) *)
+Definition trim_line (s : str) : str := if last (rtrim s) 0 =? 92 then s else rtrim s.
+(* nothing left to do for CheckTrailingWhitespace *)
+Definition line_settled (s : str) : bool := ends_clean s || (last (rtrim s) 0 =? 92).
+Definition trim_file (ls : list str) : list str := map trim_line ls.
 
 (* ---------- CVS id and the empty line below it: lines.go CheckCvsID,
    lineslexer.go SkipEmptyOrNote, as used by distinfo.go parse() ---------- *)
